@@ -435,7 +435,9 @@ pub mod verif_hooks {
         let now = UnixTime::since_unix_epoch(std::time::Duration::from_secs(now_unix_secs));
         let verifier = cert_verifier(server_names);
         match expected {
-            None => verifier.verify_server_cert(&end_entity, &intermediates, &server_name, &[], now),
+            None => {
+                verifier.verify_server_cert(&end_entity, &intermediates, &server_name, &[], now)
+            }
             Some(peer_id) => ExpectedCertVerifier(verifier, peer_id).verify_server_cert(
                 &end_entity,
                 &intermediates,
